@@ -509,10 +509,14 @@ func (d *Pegnetd) SyncBlock(ctx context.Context, tx *sql.Tx, height uint32) erro
 
 			// check if the height has no rates, what do we do?
 			// check rates from previous height
-			if rates == nil && height < config.V202EnhanceActivation {
+			if len(rates) == 0 && height < config.V202EnhanceActivation {
 				// We need to handle the no rates case. Miners could avoid mining this last block.
 				// use the last valid rates from last block
+				// (SelectPendingRates returns an empty map, never nil, when a height has no rates)
 				rates, err = d.Pegnet.SelectPendingRates(ctx, tx, height-1)
+				if err != nil {
+					return err
+				}
 			}
 
 			if (rates == nil || len(rates) == 0) && height >= config.V202EnhanceActivation {
@@ -521,7 +525,7 @@ func (d *Pegnetd) SyncBlock(ctx context.Context, tx *sql.Tx, height uint32) erro
 
 			// If no rates for second time, skip Snapshot logic
 			// otherwise proceed with payout
-			if rates != nil {
+			if len(rates) > 0 {
 				err := d.SnapshotPayouts(tx, fLog, rates, height, dblock.Timestamp)
 				if err != nil {
 					// something wrong happend during payout execution
@@ -531,6 +535,13 @@ func (d *Pegnetd) SyncBlock(ctx context.Context, tx *sql.Tx, height uint32) erro
 				// We don't return error as it will stop synchronisation
 				// we continue execution but skiping payout for this time
 				fLog.WithFields(log.Fields{"section": "staking", "reason": "no rates"}).Tracef("2 last blocks does not contains rates")
+				if height < config.V202EnhanceActivation {
+					// nobody can be valued without rates, so nobody is paid; the balances are
+					// still snapshotted, as they always were at these heights
+					if err := d.Pegnet.SnapshotCurrent(tx); err != nil {
+						return err
+					}
+				}
 			}
 		}
 
